@@ -47,12 +47,12 @@ ASSUMPTIONS = [
     "an independent numpy log-density is used to search for better points and as a cross-check",
 ]
 REQUIRED_COUNTERS = {
-    "quick": {"lg_map_closed_form_compared": 140, "lg_map_optim_compared": 90, "ml_wls_compared": 90,
-              "ml_underdetermined_compared": 40, "direct_mean_compared": 120, "direct_cov_compared": 120,
+    "quick": {"lg_map_closed_form_compared": 140, "lg_map_optim_compared": 65, "ml_wls_compared": 80,
+              "ml_underdetermined_compared": 22, "direct_mean_compared": 120, "direct_cov_compared": 120,
               "neighbourhood_points_probed": 40000, "nl_estimates_probed": 130, "gradient_norm_checked": 200,
               "solver_result_passthrough_checked": 300},
-    "thorough": {"lg_map_closed_form_compared": 1050, "lg_map_optim_compared": 560, "ml_wls_compared": 680,
-                 "ml_underdetermined_compared": 250, "direct_mean_compared": 960, "direct_cov_compared": 960,
+    "thorough": {"lg_map_closed_form_compared": 1050, "lg_map_optim_compared": 500, "ml_wls_compared": 550,
+                 "ml_underdetermined_compared": 190, "direct_mean_compared": 960, "direct_cov_compared": 960,
                  "neighbourhood_points_probed": 360000, "nl_estimates_probed": 850, "gradient_norm_checked": 1500,
                  "solver_result_passthrough_checked": 2150},
 }
@@ -61,11 +61,11 @@ BUDGET_S = {"quick": 240.0, "thorough": 1500.0}
 REFUSALS = (ValueError, TypeError, NotImplementedError)
 
 # tolerances (see the measurements quoted in the report; >= 100x the largest discrepancy seen on the unchanged tree)
-TOL_DIRECT_REL = 1e-7        # closed-form route: |x - x_ref| <= TOL * (1 + |x_ref|) * cond-free scale
+TOL_DIRECT_REL = 1e-7        # closed-form route, in posterior standard deviations: 1e-7 + TOL*1e-2*(size of the numbers in sd)
 TOL_GAP_REL = 1e-5           # optimisation route: f(x_ref) - f(x) <= TOL * max(1, f(x_ref) - f(x_start))
 TOL_GAIN_REL = 1e-6          # neighbourhood: logd(x+d) - logd(x) <= TOL * max(1, |logd(x) - logd(x_start)|)
 TOL_GRAD_REL = 1e-2          # |grad(x)|_inf <= TOL * gradient scale away from x
-TOL_COV_REL = 1e-7
+TOL_COV_REL = 1e-6
 ABS_TOL_GAP = 1e-5           # linear-Gaussian cases: log-density gaps are scale free (0.5 = one posterior standard deviation)
 GROSS_RATIO = 1.0            # non-smooth objectives: a neighbour better by more than the whole climb from the start is never excused
 
@@ -88,6 +88,7 @@ def _pick_size(rng, tier, i):
         n = rng.randint(2, 12) if r < 0.6 else (rng.randint(13, 40) if r < 0.93 else rng.randint(41, 70))
     return n
 
+_SCALES = (-12, -10, -8, -6, -4, 0, 4, 8)
 _MODELS = ("matrix", "func", "spmatrix", "func", "matrix", "Model_jac", "Model_grad", "Model_nograd", "func", "matrix")
 
 def _lg_case(rng, tier, i, specs_p, specs_e, models):
@@ -162,6 +163,30 @@ def _lg_case(rng, tier, i, specs_p, specs_e, models):
             "x0": rng.choice(["default", "default", "random"])}
     # history: estimates / draws computed before a re-specification must not leak into the ones computed after it
     case["pre_map"] = rng.random() < (0.6 if case["respec"] != "none" else 0.2)
+    # scale axis: prior covariance x 10^kx, noise covariance x 10^ke (extreme but legal magnitudes); the operator is
+    # scaled by 10^((ke-kx)/2) in the builder so that the signal-to-noise ratio, hence the conditioning of the
+    # posterior, is that of the unscaled problem
+    if rng.random() < 0.45:
+        kx = ke = 0
+    else:
+        kx = rng.choice(_SCALES)
+        ke = kx if rng.random() < 0.4 else rng.choice(_SCALES)
+    if tp is not None:
+        ke = kx                                   # the test problem's operator cannot be rescaled
+        tp["noise_std"] = tp["noise_std"] * 10.0 ** (ke / 2)
+    case["kx"], case["ke"] = kx, ke
+    if (kx, ke) != (0, 0) and rng.random() < 0.7:
+        case["x0"] = "near"          # user-specified initial guess a few standard deviations from the solution (the default
+                                     # start, a vector of ones, is up to 1e6 standard deviations away at these scales)
+    if prior["type"] == "gmrf":
+        prior["delta"] = prior["delta"] * 10.0 ** (-kx)
+    else:
+        prior["scale"] = prior["scale"] * 10.0 ** kx
+        if prior["shape"] == "full" and rng.random() < 0.35:
+            prior["shape"] = "corr"
+    case["noise"]["scale"] = case["noise"]["scale"] * 10.0 ** ke
+    if case["noise"]["shape"] == "full" and rng.random() < 0.35:
+        case["noise"]["shape"] = "corr"
     return case
 
 def cases(tier, seed):
@@ -201,6 +226,7 @@ def _cfg_lg(case):
             "prior_type": p["type"], "prior_form": p.get("form", "gmrf"), "prior_shape": p.get("shape", "gmrf"),
             "noise_form": case["noise"]["form"], "noise_shape": case["noise"]["shape"],
             "mean": case["mean"], "compute_cov": case["compute_cov"], "respec": case["respec"],
+            "kx": case.get("kx", 0), "ke": case.get("ke", 0),
             "geom_identity": case["dgeom"] in ("default", "cont1d", "discrete", "image2d", "image2dF")
                              or (case["dgeom"] == "step" and case["nf"] == case["n"])}
 
@@ -268,7 +294,7 @@ def _safe_logd(dens, x):
     except REFUSALS:
         return None
 
-def probe_estimate(ctx, cfg, dens, xh, x_start, rs, f_ref=None, smooth=True, label="MAP", tol_floor=0.0, metric=None):
+def probe_estimate(ctx, cfg, dens, xh, x_start, rs, f_ref=None, smooth=True, label="MAP", tol_floor=0.0, metric=None, solver_gtol=None):
     """Neighbourhood + gradient oracle for one returned estimate.  Returns a small dict of facts.
     `metric` = reference Hessian of the (quadratic) log-density when the harness knows it: neighbours are then
     also generated in units of standard deviations (the problem may live at any scale) and the tolerance on the
@@ -347,16 +373,24 @@ def probe_estimate(ctx, cfg, dens, xh, x_start, rs, f_ref=None, smooth=True, lab
             cands.append(("polished_half", xh + 0.5 * step))
     except Exception:   # the search is only a source of candidates
         pass
-    best, best_kind, best_x = 0.0, None, None
+    # an optimiser that stopped at |g|_inf <= gtol may leave, at distance d, a first-order gain of |g|_2 d <= sqrt(n) gtol d
+    # (flat shoulders of non-concave posteriors); factor 100.  Not granted to the closed-form route.
+    slope = 100.0 * np.sqrt(n) * solver_gtol if solver_gtol else 0.0
+    tol0 = tol
+    best, best_kind, best_x, best_excess = 0.0, None, None, -np.inf
     nprobed = 0
     for kind, x in cands:
         v = _safe_logd(dens, x)
         if v is None or np.isnan(v):
             continue
         nprobed += 1
-        if v - f0 > best:
-            best, best_kind, best_x = v - f0, kind, x
+        excess = (v - f0) - max(tol, slope * float(np.linalg.norm(x - xh)))
+        if excess > best_excess:
+            best_excess, best, best_kind, best_x = excess, v - f0, kind, x
     ctx.count("neighbourhood_points_probed", nprobed)
+    if best_x is not None:
+        tol = max(tol, slope * float(np.linalg.norm(best_x - xh)))
+    best = max(best, 0.0)
     facts = {"probed": True, "gain": best, "tol": tol, "climb": climb}
     c2 = {**cfg, "target": label, "smooth": smooth}
     if best > tol:
@@ -368,9 +402,14 @@ def probe_estimate(ctx, cfg, dens, xh, x_start, rs, f_ref=None, smooth=True, lab
     if f_ref is not None:
         # cross-check with the independent density: the estimate must also be a local maximiser of it
         r0 = F(xh)
-        rbest = max((F(x) - r0 for _, x in cands), default=0.0)
+        rbest, rex = 0.0, -np.inf
+        for _, x in cands:
+            gr = F(x) - r0
+            ex = gr - max(tol0, 1e-6 * abs(r0), slope * float(np.linalg.norm(x - xh)))
+            if ex > rex:
+                rex, rbest = ex, gr
         ctx.count("reference_density_crosschecks")
-        if rbest > max(tol, 1e-6 * abs(r0)) and best <= tol:
+        if rex > 0 and best <= tol:
             ctx.violation("not_local_max_of_reference_density", c2,
                           f"{label}: the library's logd sees no better neighbour (gain {best:.3g}) but the independent "
                           f"log-density does (gain {rbest:.3g}): estimate maximises a different function")
@@ -456,7 +495,8 @@ def build_lg(case, rs):
     n, m, nf = case["n"], case["m"], case["nf"]
     if case["model"] == "deconv1d":
         return _build_deconv(case, rs, b)
-    A_fun = rs.standard_normal((m, nf)) / np.sqrt(nf)
+    a_scale = 10.0 ** ((case.get("ke", 0) - case.get("kx", 0)) / 2)
+    A_fun = rs.standard_normal((m, nf)) / np.sqrt(nf) * a_scale
     dgeom = _geometry(case, rs, "domain")
     rgeom = _geometry(case, rs, "range")
     r_img = case["rgeom"] == "image2d"
@@ -474,7 +514,7 @@ def build_lg(case, rs):
         model = LinearModel(A_fun.copy(), range_geometry=rgeom if not isinstance(rgeom, int) else None,
                             domain_geometry=dgeom if not isinstance(dgeom, int) else None)
     elif mk == "spmatrix":
-        As = A_fun.copy(); As[np.abs(As) < 0.3 / np.sqrt(nf)] = 0.0
+        As = A_fun.copy(); As[np.abs(As) < 0.3 * a_scale / np.sqrt(nf)] = 0.0
         As += 0.0
         A_fun = As
         model = LinearModel(sps.csr_matrix(As), range_geometry=rgeom if not isinstance(rgeom, int) else None,
@@ -492,14 +532,15 @@ def build_lg(case, rs):
     if case["prior"]["type"] == "gmrf" and mean_kind in ("scalar", "scalar0"):
         mean_kind = "vector"
     mu_true = {"zero": np.zeros(n), "scalar0": np.zeros(n), "scalar": None, "vector": None}[mean_kind]
+    fm = _mean_factor(case, rs)
     if mean_kind == "scalar":
-        s = float(rs.uniform(-2, 2)); mu_arg, mu_true = s, s * np.ones(n)
+        s = float(rs.uniform(-2, 2)) * fm; mu_arg, mu_true = s, s * np.ones(n)
     elif mean_kind == "scalar0":
         mu_arg = 0.0
     elif mean_kind == "zero":
         mu_arg = np.zeros(n)
     else:
-        mu_true = rs.standard_normal(n) * 1.5; mu_arg = mu_true.copy()
+        mu_true = rs.standard_normal(n) * 1.5 * fm; mu_arg = mu_true.copy()
     pg = {"geometry": model.domain_geometry} if case["prior_geom"] else {}
     if case["prior"]["type"] == "gmrf":
         delta = case["prior"]["delta"]
@@ -530,15 +571,21 @@ def build_lg(case, rs):
     b.make_BP = make
     return b
 
+def _mean_factor(case, rs):
+    """Prior means live either at the prior's own scale (sqrt of its variance scale) or stay O(1)."""
+    kx = case.get("kx", 0)
+    return 10.0 ** (kx / 2) if (kx != 0 and rs.uniform() < 0.5) else 1.0
+
 def _prior_mean(case, rs, n):
     mean_kind = case["mean"]
+    fm = _mean_factor(case, rs)
     if mean_kind == "scalar":
-        sc = float(rs.uniform(-2, 2)); return sc, sc * np.ones(n)
+        sc = float(rs.uniform(-2, 2)) * fm; return sc, sc * np.ones(n)
     if mean_kind == "scalar0":
         return 0.0, np.zeros(n)
     if mean_kind == "zero":
         return np.zeros(n), np.zeros(n)
-    mu = rs.standard_normal(n) * 1.5
+    mu = rs.standard_normal(n) * 1.5 * fm
     return mu.copy(), mu
 
 def _build_deconv(case, rs, b):
@@ -572,7 +619,7 @@ def observe_matrix(model, n, m, rs):
     for _ in range(2):
         x = rs.standard_normal(n)
         y = _vec(model.forward(x))
-        if not np.allclose(y, A @ x, rtol=1e-9, atol=1e-9 * (1 + np.max(np.abs(y)))):
+        if not np.allclose(y, A @ x, rtol=1e-9, atol=1e-9 * np.max(np.abs(y))):
             return None
     return A
 
@@ -625,7 +672,7 @@ def run_lg(case, ctx):
     if case["respec"] != "none" and gaussian_prior:
         form = case["prior"]["form"]
         if case["respec"] == "mean":
-            mu = rs.standard_normal(n) * 2.0 + 1.0
+            mu = (rs.standard_normal(n) * 2.0 + 1.0) * _mean_factor(case, rs)
             BP.prior.mean = mu.copy()
         elif case["respec"] == "matrix":
             val, Cx = R.make_spec(rs, n, form, case["prior"]["shape"], case["prior"]["scale"] * 2.5)
@@ -649,7 +696,7 @@ def run_lg(case, ctx):
                 do_compute_cov()
         else:
             val, Cx = R.make_spec(rs, n, "cov", "full", case["prior"]["scale"] * 0.6)
-            mu = rs.standard_normal(n)
+            mu = rs.standard_normal(n) * _mean_factor(case, rs)
             BP.prior = Gaussian(mu.copy(), cov=val, name="x")
         ctx.count("respecified_problems")
     model = BP.model
@@ -662,20 +709,50 @@ def run_lg(case, ctx):
     x_start_default = np.ones(n)
     f_ref = lambda x: -0.5 * float((_vec(x) - mean_ref) @ P_ref @ (_vec(x) - mean_ref))
     climb_ref = -f_ref(x_start_default)
-    prior_matters = np.linalg.norm(mean_ref - mu) > 1e-3 * (1 + np.linalg.norm(mu))
+    sd_dist = lambda a, b_: float(np.sqrt(max(0.0, 2.0 * R.quad_gap(P_ref, a, b_))))     # distance in posterior standard deviations
+    sd_scale = 1.0 + sd_dist(mean_ref, np.zeros(n)) + sd_dist(mu, np.zeros(n))              # magnitude of the numbers involved, same unit
+    tol_sd = 1e-7 + TOL_DIRECT_REL * 1e-2 * sd_scale                                        # closed-form route: rounding ~ eps*cond*sd_scale
+    prior_matters = sd_dist(mean_ref, mu) > 0.1
+    sd_med = float(np.median(np.sqrt(np.abs(np.diag(C_ref)))))
+    sd_class = "tiny" if sd_med < 1e-4 else ("huge" if sd_med > 1e4 else "unit")       # size of one posterior standard deviation in x
     ml_ref = None
     if m >= n and np.linalg.cond(A) < 1e4:
         ml_ref, N_ml = R.wls(A, data, Ce)
-    lik_matters = ml_ref is None or np.linalg.norm(mean_ref - ml_ref) > 1e-3 * (1 + np.linalg.norm(mean_ref))
+    lik_matters = ml_ref is None or sd_dist(mean_ref, ml_ref) > 0.1
     ctx.note("n_m_route", [n, m, case["model"], case["dgeom"]])
 
     # ---------------- MAP
-    x0 = None if case["x0"] == "default" else rs.standard_normal(n)
+    det_overflow = bool(abs(np.linalg.slogdet(Cx)[1]) > 700 or abs(np.linalg.slogdet(Ce)[1]) > 700)
+    def near(centre, H):
+        try:
+            return centre + np.linalg.solve(np.linalg.cholesky(0.5 * (H + H.T)).T, 3.0 * rs.standard_normal(len(centre)))
+        except np.linalg.LinAlgError:
+            return centre + 0.0
+    def startable(dens, xs_, fq, cfg_, label, returned_by_optim):
+        """Can the optimisation route be judged from this start?  Returns False (and reports) when the library's
+        log-density is not finite there, or when the start is more than 1e4 standard deviations from the maximiser
+        (objective range > 1e8: beyond what a double-precision line search with fixed settings resolves)."""
+        fs_ = _safe_logd(dens, xs_)
+        if fs_ is not None and not np.isfinite(fs_) and np.isfinite(fq(xs_)):
+            if returned_by_optim:
+                ctx.count("estimates_from_nonfinite_logd")
+                ctx.violation("estimate_from_nonfinite_logd", {**cfg_, "target": label, "det_overflow": det_overflow},
+                              f"{label}: the log-density that is optimised evaluates to {fs_} at the start although the specified density "
+                              f"is finite there; a point was returned nevertheless (log-det of the covariances: "
+                              f"{np.linalg.slogdet(Cx)[1]:.4g}, {np.linalg.slogdet(Ce)[1]:.4g})")
+            return False
+        if -fq(xs_) > 1e8:
+            ctx.count("optim_compare_skipped_far_start")
+            return False
+        return True
+    x0 = None if case["x0"] == "default" else (near(mean_ref, P_ref) if case["x0"] == "near" else rs.standard_normal(n))
     x_start = x_start_default if x0 is None else x0
     with SolverRecorder() as rec:
         kind_, xm = _call(BP.MAP, disp=case["disp"], x0=None if x0 is None else x0.copy())
     route = "optim" if rec.calls else "direct"
     cfgm = {**cfg, "route": route}
+    if rec.calls:
+        cfgm.update({"solver_success": rec.calls[-1]["success"], "sd_class": sd_class})
     if kind_ == "refused":
         ctx.refused("MAP", xm); ctx.count("map_refused"); ctx.nontrivial("refusal")
     elif kind_ == "crashed":
@@ -698,14 +775,15 @@ def run_lg(case, ctx):
             map_floor = 0.0
             if route == "direct":
                 ctx.count("lg_map_closed_form_compared")
-                tolx = TOL_DIRECT_REL * (1.0 + float(np.max(np.abs(mean_ref))))
-                if err > tolx:
+                dsd = sd_dist(xv, mean_ref)
+                if dsd > tol_sd:
                     ctx.violation("map_not_posterior_mean", cfgm,
-                                  f"closed-form route: max|MAP - posterior mean| = {err:.3g} (tolerance {tolx:.3g}), "
-                                  f"log-density gap {gap:.3g}; |posterior mean - prior mean| = {np.linalg.norm(mean_ref-mu):.3g}",
-                                  witness={"map": xv, "ref": mean_ref})
+                                  f"closed-form route: MAP is {dsd:.3g} posterior standard deviations from the posterior mean "
+                                  f"(tolerance {tol_sd:.3g}; max|dx| = {err:.3g}, log-density gap {gap:.3g}); the posterior mean is "
+                                  f"{sd_dist(mean_ref, mu):.3g} sd from the prior mean", witness={"map": xv, "ref": mean_ref})
             else:
-                tolg, well = optim_tolerance(P_ref, mean_ref, -f_ref(x_start))
+                tolg, well = optim_tolerance(P_ref, mean_ref, exact_grad=rec.calls[-1]["has_grad"])
+                well = well and startable(BP.posterior, x_start, f_ref, cfgm, "MAP", True)
                 map_floor = tolg
                 if not well:
                     ctx.count("optim_compare_skipped_illconditioned")
@@ -716,7 +794,7 @@ def run_lg(case, ctx):
                                   f"optimisation route ({rec.calls[-1]['solver']}, exact gradient={rec.calls[-1]['has_grad']}, "
                                   f"success={rec.calls[-1]['success']}): log-density gap to the closed-form posterior mean {gap:.3g} "
                                   f"(tolerance {tolg:.3g}), max|dx| = {err:.3g}", witness={"map": xv, "ref": mean_ref})
-            ctx.note("map_err_gap", [err, gap, route, gap / max(map_floor, TOL_GAP_REL * max(1.0, -f_ref(x_start)))])
+            ctx.note("map_err_gap", [err, gap, route, (sd_dist(xv, mean_ref) / tol_sd) if route == "direct" else gap / map_floor, case.get("kx", 0), case.get("ke", 0), bool(route == "direct" or well)])
             if info is None or "solver" not in info:
                 ctx.count("estimate_without_info")
             if any(v["mechanism"] == "map_not_posterior_mean" for v in ctx.violations):
@@ -724,18 +802,21 @@ def run_lg(case, ctx):
             elif route == "optim" and not well:
                 pass
             else:
-                probe_estimate(ctx, cfgm, BP.posterior, xv, x_start, rs, f_ref=f_ref, smooth=True, label="MAP", tol_floor=map_floor)
+                fm_ = probe_estimate(ctx, cfgm, BP.posterior, xv, x_start, rs, f_ref=f_ref, smooth=True, label="MAP", tol_floor=map_floor, metric=P_ref, solver_gtol=1e-5 if route == "optim" else None)
+                ctx.note("map_probe", [fm_.get("gain"), fm_.get("tol"), fm_.get("newton_decrement")])
             if prior_matters and lik_matters:
                 ctx.nontrivial()
             ctx.count("map_values_judged")
 
     # ---------------- ML (over-determined, full column rank)
     if ml_ref is not None and case["i"] % 2 == 0:
-        x0l = None if case["x0"] == "default" else rs.standard_normal(n)
+        x0l = None if case["x0"] == "default" else (near(ml_ref, N_ml) if case["x0"] == "near" else rs.standard_normal(n))
         xs = np.ones(n) if x0l is None else x0l
         with SolverRecorder() as rec:
             kind_, xl = _call(BP.ML, disp=case["disp"], x0=None if x0l is None else x0l.copy())
         cfgl = {**cfg, "route": "optim" if rec.calls else "direct"}
+        if rec.calls:
+            cfgl.update({"solver_success": rec.calls[-1]["success"], "sd_class": sd_class})
         if kind_ == "refused":
             ctx.refused("ML", xl); ctx.count("ml_refused")
         elif kind_ == "crashed":
@@ -751,7 +832,8 @@ def run_lg(case, ctx):
                         ctx.violation("estimate_differs_from_solver_result", {**cfgl, "call": "ML"}, "ML returned a point different from its solver's solution")
                 gap = R.quad_gap(N_ml, xv, ml_ref)
                 fl = lambda x: -0.5 * float((_vec(x) - ml_ref) @ N_ml @ (_vec(x) - ml_ref))
-                tolg, well = optim_tolerance(N_ml, ml_ref, -fl(xs))
+                tolg, well = optim_tolerance(N_ml, ml_ref, exact_grad=bool(rec.calls and rec.calls[-1]["has_grad"]))
+                well = well and startable(BP.likelihood, xs, fl, cfgl, "ML", bool(rec.calls))
                 if not well:
                     ctx.count("optim_compare_skipped_illconditioned")
                 else:
@@ -761,7 +843,7 @@ def run_lg(case, ctx):
                                   f"log-likelihood gap to the weighted least-squares solution {gap:.3g} (tolerance {tolg:.3g}), "
                                   f"max|dx| = {np.max(np.abs(xv-ml_ref)):.3g}; distance to the posterior mean {np.max(np.abs(xv-mean_ref)):.3g}",
                                   witness={"ml": xv, "ref": ml_ref})
-                  probe_estimate(ctx, cfgl, BP.likelihood, xv, xs, rs, f_ref=fl, smooth=True, label="ML", tol_floor=tolg)
+                  probe_estimate(ctx, cfgl, BP.likelihood, xv, xs, rs, f_ref=fl, smooth=True, label="ML", tol_floor=tolg, metric=N_ml, solver_gtol=1e-5 if rec.calls else None)
                   ctx.note("ml_gap", [gap, gap / tolg])
 
     # ---------------- ML, under-determined with full row rank: every maximiser reproduces the data exactly
@@ -772,6 +854,8 @@ def run_lg(case, ctx):
         with SolverRecorder() as rec:
             kind_, xl = _call(BP.ML, disp=False)
         cfgl = {**cfg, "route": "optim" if rec.calls else "direct", "determined": "under"}
+        if rec.calls:
+            cfgl.update({"solver_success": rec.calls[-1]["success"], "sd_class": sd_class})
         if kind_ == "refused":
             ctx.refused("ML", xl); ctx.count("ml_refused")
         elif kind_ == "crashed":
@@ -783,7 +867,8 @@ def run_lg(case, ctx):
             else:
                 gap = -fl(xv)
                 WA = np.linalg.solve(np.linalg.cholesky(Ce), A)
-                tolg, well = optim_tolerance(WA @ WA.T, xv, -fl(xs))      # Hessian restricted to the row space
+                tolg, well = optim_tolerance(WA @ WA.T, xv, exact_grad=bool(rec.calls and rec.calls[-1]["has_grad"]))      # Hessian restricted to the row space
+                well = well and startable(BP.likelihood, xs, fl, cfgl, "ML", bool(rec.calls))
                 if not well:
                     ctx.count("optim_compare_skipped_illconditioned")
                     tolg = np.inf
@@ -794,7 +879,7 @@ def run_lg(case, ctx):
                                   f"under-determined problem: the likelihood attains its maximum where A x = data, the returned ML "
                                   f"estimate leaves a log-likelihood gap {gap:.3g} (tolerance {tolg:.3g})")
                 if well:
-                    probe_estimate(ctx, cfgl, BP.likelihood, xv, xs, rs, f_ref=fl, smooth=True, label="ML", tol_floor=tolg)
+                    probe_estimate(ctx, cfgl, BP.likelihood, xv, xs, rs, f_ref=fl, smooth=True, label="ML", tol_floor=tolg, solver_gtol=1e-5 if rec.calls else None)
                     ctx.note("ml_under_gap", [gap, gap / tolg])
 
     # ---------------- direct sampler read off as an affine map of the scripted normals
@@ -844,10 +929,10 @@ def run_lg(case, ctx):
     xbar = Xs[:, n]
     Bm = Xs[:, :n] - xbar[:, None]
     ctx.count("direct_mean_compared")
-    tolx = TOL_DIRECT_REL * (1.0 + float(np.max(np.abs(mean_ref))))
-    if np.max(np.abs(xbar - mean_ref)) > tolx:
+    if sd_dist(xbar, mean_ref) > tol_sd:
         ctx.violation("direct_mean_mismatch", cfgs,
-                      f"draw with e=0 differs from the posterior mean by {np.max(np.abs(xbar-mean_ref)):.3g} (tolerance {tolx:.3g})",
+                      f"draw with e=0 is {sd_dist(xbar, mean_ref):.3g} posterior standard deviations from the posterior mean "
+                      f"(tolerance {tol_sd:.3g}; max|dx| = {np.max(np.abs(xbar-mean_ref)):.3g})",
                       witness={"xbar": xbar, "ref": mean_ref})
     ctx.count("direct_cov_compared")
     Cobs = Bm @ Bm.T
@@ -861,7 +946,7 @@ def run_lg(case, ctx):
         ctx.violation("direct_not_affine", cfgs, "draw is not the affine image x_bar + B e of its standard normal vector")
     if prior_matters and lik_matters:
         ctx.nontrivial()
-    ctx.note("direct_err", [float(np.max(np.abs(xbar - mean_ref))), float(np.max(np.abs(Cobs - C_ref)) / cs)])
+    ctx.note("direct_err", [sd_dist(xbar, mean_ref) / tol_sd, float(np.max(np.abs(Cobs - C_ref)) / cs)])
 
 # ----------------------------------------------------------------------------- nl: the case
 
@@ -991,7 +1076,8 @@ def run_nl(case, ctx):
             if not rec.calls[-1]["success"]:
                 ctx.count("solver_reported_failure")
         dens = BP.posterior if target == "MAP" else BP.likelihood
-        facts = probe_estimate(ctx, c2, dens, xv, x_start, rs, f_ref=(f_post if target == "MAP" else f_lik), smooth=smooth, label=target)
+        facts = probe_estimate(ctx, c2, dens, xv, x_start, rs, f_ref=(f_post if target == "MAP" else f_lik), smooth=smooth, label=target,
+                               solver_gtol=1e-5 if rec.calls else None)
         if facts.get("probed"):
             ctx.count("nl_estimates_probed")
             ctx.nontrivial()
